@@ -269,7 +269,7 @@ def _power(ex, st, args, kwargs, node):
         if (ex.is_arr(args[0], st) or ex.is_arr(args[1], st)) else ex.power(args[0], args[1], st, node)
 
 
-@model('math.pow')
+@model('math.pow', 'builtins.pow')
 def _mpow(ex, st, args, kwargs, node):
     return ex.power(args[0], args[1], st, node)
 
@@ -325,7 +325,16 @@ def _sum_arr(ex, st, a, axis, node):
     raise Unsupported('sum over %d-d array axis=%r' % (a.ndim, axis))
 
 
-@model('numpy.sum', '.sum', 'builtins.sum')
+@model('builtins.sum')
+def _bsum(ex, st, args, kwargs, node):
+    """builtin sum iterates over the FIRST axis: for a 2-D array it is the sum of the rows (np.sum(axis=0))"""
+    a = arr(ex, st, args[0]) if isinstance(args[0], Ref) and isinstance(st.get(args[0]), Arr) else None
+    if a is not None and a.ndim == 2 and len(args) == 1:
+        return _sum_arr(ex, st, a, 0, node)
+    return _sum(ex, st, args, kwargs, node)
+
+
+@model('numpy.sum', '.sum')
 def _sum(ex, st, args, kwargs, node):
     v = args[0]
     axis = kwargs.get('axis', args[1] if len(args) > 1 and not isinstance(args[1], float) else None)
@@ -379,13 +388,17 @@ def _extreme(is_min):
                     r = c.If(le(r, e), r, e) if (is_sym(r) or is_sym(e)) else (min(r, e) if is_min else max(r, e))
                 return r
         m = c.fresh('amin' if is_min else 'amax', REAL if a.kind == 'real' else INT)
+        # the extreme value is attained: the attaining index is an explicit (Skolem) constant, so that the element
+        # term it selects exists as a ground term for the quantified facts of the state to match against
         if a.ndim == 1:
             ex.oblige('safe.nonempty', st, to_int(a.shape[0]) >= 1, node)
             st.assume(c.Forall(0, a.shape[0], lambda i: le(m, a.elem((i,)))))
-            st.assume(c.Exists(0, a.shape[0], lambda i: m == a.elem((i,))))
+            wi = c.fresh('argext', INT)
+            st.assume(wi >= 0, wi < to_int(a.shape[0]), m == a.elem((wi,)))
         elif a.ndim == 2:
             st.assume(c.Forall2((0, a.shape[0]), (0, a.shape[1]), lambda i, j: le(m, a.elem((i, j)))))
-            st.assume(c.Exists(0, a.shape[0], lambda i: c.Exists(0, a.shape[1], lambda j: m == a.elem((i, j)))))
+            wi, wj = c.fresh('argext', INT), c.fresh('argext', INT)
+            st.assume(wi >= 0, wi < to_int(a.shape[0]), wj >= 0, wj < to_int(a.shape[1]), m == a.elem((wi, wj)))
         else:
             raise Unsupported('min/max of %d-d' % a.ndim)
         return m
@@ -595,6 +608,22 @@ def _ball(ex, st, args, kwargs, node):
     if isinstance(v, Ref) and isinstance(st.get(v), PyList):
         return ex.c.And(*[ex.truth(x, st) for x in st.get(v).items])
     return _all(ex, st, args, kwargs, node)
+
+
+@model('numpy.polynomial.legendre.leggauss')
+def _leggauss(ex, st, args, kwargs, node):
+    """assumed: leggauss(n), n >= 1, returns (x, w) of length n with -1 < x_i < 1, w_i > 0, sum w_i = 2 and
+    sum w_i x_i = 0 (Gauss-Legendre is exact for polynomials of degree <= 2n-1 >= 1; nothing else is assumed)"""
+    c = ex.c
+    n = args[0]
+    ex.oblige('safe.leggauss', st, (n >= 1) if not is_sym(n) else (to_int(n) >= 1), node)
+    x = c.fresh_array('gl_x', (n,))
+    w = c.fresh_array('gl_w', (n,))
+    st.assume(c.Forall(0, n, lambda i: z3.And(x.elem((i,)) > -1, x.elem((i,)) < 1, w.elem((i,)) > 0)))
+    st.assume(c.Sum(0, n, lambda i: w.elem((i,))) == 2)
+    st.assume(c.Sum(0, n, lambda i: w.elem((i,)) * x.elem((i,))) == 0)
+    c.last_gl = (x, w)          # exposed to contracts: the nodes and weights this call returned
+    return (st.alloc(c, x), st.alloc(c, w))
 
 
 # ----------------------------------------------------------------------------- scipy.stats
